@@ -29,7 +29,11 @@ def run(ctx):
         if not samples:
             samples = [{"run": k + 1, "cut_offset_range": [k * step, k * step + step - 1]} for k in (0, 1, n - 1)]
     cr, csum = wakefam.run_create(ctx)
+    br, bsum = wakefam.run_blocked(ctx)
     ctx.coverage = {
+        "blocked_on_full_queue": {"model": "MpxBlocked.tla", "schedules_replayed": bsum["schedules"], "conclusive": bsum["conclusive"],
+                                  "rule": "a Send / SendAndClose / Free blocked on the full write queue returns when the connection is dropped "
+                                          "(non-OK for the sends, silently for Free), in every order with the peer's close of that channel"},
         "create_during_close": {"model": "MpxCreate.tla", "schedules_replayed": csum["schedules"], "steps": csum["steps"],
                                 "spec_states": cr.distinct,
                                 "rule": "every interleaving of Conn.Channel's check / insert / re-check / remove steps with the closing "
